@@ -103,10 +103,10 @@ ALPHABETS = {
 
 
 BIG_ISO = ['iso-lim-1', 'iso-lim', 'iso-lim+1', 'iso-4g+2049', 'iso-2lim+5', 'add-rm-add', 'link', 'level1-refused']
-BIG_UDF = ['all-lim+1', 'rr-udf-lim+1', 'all-4g+2049', 'rr-udf-4g+2049', 'udf-only-4g']
+BIG_UDF = ['all-lim+1', 'rr-udf-lim+1', 'all-4g+2049', 'rr-udf-4g+2049', 'udf-only-4g', 'udf-only-2lim+5', 'udf-only-link']
 
 
-def default_bounds(quick_depth=2, thorough_depth=3, ce=False, big_udf=False):
+def default_bounds(quick_depth=2, thorough_depth=3, ce=False, big=False, big_udf=False):
     b = {
         'quick': [('dfs', 'quick', ops.CFG12, quick_depth, 1), ('dfs', 'quick', [ops.CFG12[7], ops.CFG12[10]], 3, 2),
                   ('dfs', 'macro', ops.CFG12[3:4] + ops.CFG12[9:11], 1, 1),
@@ -118,8 +118,10 @@ def default_bounds(quick_depth=2, thorough_depth=3, ce=False, big_udf=False):
     b['quick'].append(('alpha', 'sigma_readd', [ops.CFG12[7], ops.CFG12[9]], 4, 2))
     b['thorough'].append(('alpha', 'sigma_readd', ops.CFG12, 5, 2))
     b['thorough'].append(('alpha', 'sigma_readd_big', ops.CFG_MULTI[1:4], 5, 2))
-    b['quick'].append(('big', ['iso-lim+1']))
-    b['thorough'].append(('big', BIG_ISO + (BIG_UDF if big_udf else [])))
+    if big:
+        b['quick'].append(('big', ['iso-lim+1']))
+    if big or big_udf:
+        b['thorough'].append(('big', (BIG_ISO if big else []) + (BIG_UDF if big_udf else [])))
     if ce:
         b['quick'].append(('alpha', 'sigma_ce', ops.CFG_RR[:2], 5, 2))
         b['thorough'].append(('alpha', 'sigma_ce', ops.CFG_RR, 6, 2))
